@@ -429,6 +429,8 @@ def run(ctx):
     sub = _Ctx(ctx.pid, ctx.tier)
     c06.check_recompute(sub, fb)
     c06.check_complete_writes(sub, fb)
+    c06.check_formulas(sub, fb)
+    c06.check_values(sub, fb)
     for r in sub.results:
         (ctx.ok if r.status == "ok" else ctx.fail)("R08-4", r.instance, r.reason, r.loc)
     old_hook = panics.ensures_hook
